@@ -74,6 +74,43 @@ theorem corrupted_frame_keeps_time_state (crc : Bytes → Nat) (st : TState) (f'
 /-- What a corrupted frame is delivered as. -/
 theorem corrupt_expected (f : Bytes) : (Seg.corrupt f).expected = { typ := -1, raw := f, err := .crc } := rfl
 
+/-- Segments without other data between them are left as they are by normalisation. -/
+theorem normalise_no_junk : ∀ (l : List Seg), (∀ s ∈ l, s.isJunk = false) → normalise l = l
+  | [], _ => by simp [normalise]
+  | [s], _ => by simp [normalise]
+  | a :: b :: rest, h => by
+    have ih := normalise_no_junk (b :: rest) (fun s hs => h s (List.mem_cons_of_mem _ hs))
+    have ha : a.isJunk = false := h a (by simp)
+    rw [normalise, ih]
+    intro x y hx _; rw [hx] at ha; simp [Seg.isJunk] at ha
+
+/-- One corrupted frame among back-to-back valid frames: every other frame is still delivered,
+    typed and with its own bytes, and the corrupted one alone is reported with a CRC error. -/
+theorem corrupt_among_frames (crc : Bytes → Nat) (fs1 fs2 : List Bytes) (f' : Bytes)
+    (h1 : ∀ f ∈ fs1, ValidFrame crc f) (h2 : ∀ f ∈ fs2, ValidFrame crc f) (hc : Corrupted crc f') :
+    segment crc (In.ofBytes (fs1.flatten ++ f' ++ fs2.flatten)) =
+      fs1.map (fun f => { typ := typeOf f, raw := f }) ++ [{ typ := -1, raw := f', err := .crc }] ++
+      fs2.map (fun f => { typ := typeOf f, raw := f }) := by
+  have hwf : ∀ s ∈ fs1.map Seg.frame ++ [Seg.corrupt f'] ++ fs2.map Seg.frame, s.WF crc := by
+    intro s hs
+    simp only [List.mem_append, List.mem_map, List.mem_singleton] at hs
+    rcases hs with (⟨f, hf, rfl⟩ | rfl) | ⟨f, hf, rfl⟩
+    · exact h1 f hf
+    · exact hc
+    · exact h2 f hf
+  have hnj : ∀ s ∈ fs1.map Seg.frame ++ [Seg.corrupt f'] ++ fs2.map Seg.frame, s.isJunk = false := by
+    intro s hs
+    simp only [List.mem_append, List.mem_map, List.mem_singleton] at hs
+    rcases hs with (⟨f, _, rfl⟩ | rfl) | ⟨f, _, rfl⟩ <;> rfl
+  have h := corrupt_isolated crc _ [] hwf (Or.inl rfl)
+  rw [normalise_no_junk _ hnj] at h
+  simp only [streamOf, List.map_append, List.map_map, List.map_cons, List.map_nil, List.flatten_append,
+    List.flatten_cons, List.flatten_nil, List.append_nil, expectedTail, ↓reduceIte] at h
+  have e1 : (Seg.bytes ∘ Seg.frame) = id := by funext f; rfl
+  have e2 : (Seg.expected ∘ Seg.frame) = (fun f => ({ typ := typeOf f, raw := f } : Msg)) := by funext f; rfl
+  rw [e1, e2] at h
+  simpa [Seg.bytes, Seg.expected] using h
+
 /-! Non-vacuity (tests): a concrete corrupted frame (payload byte altered to 0xD3). -/
 def F1 : Bytes := [0xD3, 0x00, 0x02, 0x3E, 0xD0] ++ crcBytes (crc24q [0xD3, 0x00, 0x02, 0x3E, 0xD0])
 def F1bad : Bytes := [0xD3, 0x00, 0x02, 0x3E, 0xD3] ++ crcBytes (crc24q [0xD3, 0x00, 0x02, 0x3E, 0xD0])
